@@ -1,5 +1,6 @@
 import Rbp.Model.Driver
 import Rbp.Proofs.Driver
+import Rbp.Proofs.RunSpec
 /-!
 # C02 — exactly the blocks of heights start..min(end,tip) are delivered, once, ascending
 -/
@@ -20,6 +21,38 @@ theorem delivered_eq_range (o : Opts) (key : Option W.Bytes) (kvs : List (W.Byte
     ((run o key kvs files).exit = 0 ∨ (run o key kvs files).exit = 101) ∧
     (o.callback ≠ "simplestats" → o.callback ≠ "balances" → (run o key kvs files).exit = 0) :=
   run_delivers_range o key kvs files coin ld hcoin hld hfiles hkey hs
+
+/-- **blocks outside the range never contribute to any output.**  Two data directories with the same options whose indexes
+    load and end at the same height, and which store the same parsed blocks (and length prefixes) at every height of
+    `start..maxH` — whatever they hold at heights outside the range, wherever and however the blocks are stored — produce the
+    same exit status, the same files and the same stdout, for every callback -/
+theorem outside_range_irrelevant (o : Opts) (key₁ key₂ : Option W.Bytes) (kvs₁ kvs₂ : List (W.Bytes × W.Bytes)) (fs₁ fs₂ : List BlkFile)
+    (coin : Coin) (ld₁ ld₂ : Loaded) (hcoin : coinOf o.coin = some coin)
+    (hl₁ : loadIndex o kvs₁ = .ok ld₁) (hl₂ : loadIndex o kvs₂ = .ok ld₂) (hmax : ld₁.maxH = ld₂.maxH)
+    (hk₁ : key₁ ≠ some []) (hk₂ : key₂ ≠ some []) (sz : Nat → Nat) (blk₁ blk₂ : Nat → W.Block)
+    (hsame : ∀ k, o.start ≤ k → k ≤ ld₁.maxH → (blk₁ k).toR = (blk₂ k).toR)
+    (hs₁ : ∀ k, o.start ≤ k → k < o.start + (ld₁.maxH + 1 - o.start) →
+      Stored coin key₁ (fs₁.filterMap fun f => (parseBlkIndex f.name).map fun n => (n, f)) ld₁.trimmed k (sz k) (blk₁ k) ∧
+      (o.verify = true → verifyBlock coin ld₁.trimmed (blk₁ k).toR k = .ok ()))
+    (hs₂ : ∀ k, o.start ≤ k → k < o.start + (ld₂.maxH + 1 - o.start) →
+      Stored coin key₂ (fs₂.filterMap fun f => (parseBlkIndex f.name).map fun n => (n, f)) ld₂.trimmed k (sz k) (blk₂ k) ∧
+      (o.verify = true → verifyBlock coin ld₂.trimmed (blk₂ k).toR k = .ok ()))
+    (hne : o.start ≤ ld₁.maxH)
+    (hnp : callbackPanics o coin.version
+      ((List.range' o.start (ld₁.maxH + 1 - o.start)).map (fun k => (⟨k, sz k, (blk₁ k).toR⟩ : CB.EBlock))) = false) :
+    (run o key₁ kvs₁ fs₁).files = (run o key₂ kvs₂ fs₂).files ∧ (run o key₁ kvs₁ fs₁).stdout = (run o key₂ kvs₂ fs₂).stdout ∧
+    (run o key₁ kvs₁ fs₁).exit = (run o key₂ kvs₂ fs₂).exit := by
+  have e : (List.range' o.start (ld₁.maxH + 1 - o.start)).map (fun k => (⟨k, sz k, (blk₁ k).toR⟩ : CB.EBlock)) =
+      (List.range' o.start (ld₂.maxH + 1 - o.start)).map (fun k => (⟨k, sz k, (blk₂ k).toR⟩ : CB.EBlock)) := by
+    rw [← hmax]
+    apply List.map_congr_left
+    intro k hk
+    have := List.mem_range'_1.mp hk
+    rw [hsame k this.1 (by omega)]
+  obtain ⟨a0, _, a1, a2⟩ := run_stored o key₁ kvs₁ fs₁ coin ld₁ hcoin hl₁ hk₁ sz blk₁ hs₁ hne hnp
+  obtain ⟨b0, _, b1, b2⟩ := run_stored o key₂ kvs₂ fs₂ coin ld₂ hcoin hl₂ hk₂ sz blk₂ hs₂ (by omega) (by rw [← e]; exact hnp)
+  rw [a1, a2, b1, b2, e, hmax, a0, b0]
+  exact ⟨rfl, rfl, rfl⟩
 
 /-- the upper end is `min(--end, tip)`, and the tip itself when no `--end` is given (both inclusive) -/
 theorem upper_end (o : Opts) (kvs : List (W.Bytes × W.Bytes)) (ld : Loaded) (h : loadIndex o kvs = .ok ld) :
